@@ -98,10 +98,59 @@ harness!(c06_edf_np_never_t, 5, |s| { edf_body(s, Kind::NonPreemptive, &QEN); })
 harness!(c06_edf_fl_two_others_t, 6, |s| { edf_body(s, Kind::Floating, &QE2); });
 harness!(c06_edf_np_two_others_t, 6, |s| { edf_body(s, Kind::NonPreemptive, &QE2); });
 
+// ---- instances with the crate's real Sporadic type (jitter larger than the period included):
+// the reference counts arrivals by the textbook formula ceil((delta + J) / T)
+fn sporadic_na(t: u64, j: u64, d: u64) -> u64 {
+    if d == 0 { 0 } else { (d + j + t - 1) / t }
+}
+
+fn fp_sporadic_body(s: &mut crate::Src, kind: Kind, limit_max: u64) {
+    use response_time_analysis::arrival::Sporadic;
+    use response_time_analysis::demand::RBF;
+    use response_time_analysis::time::{Duration, Service};
+    use response_time_analysis::wcet::Scalar;
+    use response_time_analysis::fixed_priority as fp;
+    let (t1, j1, c1) = (s.from(1, 3), s.bits(3), s.from(1, 1));
+    let (t2, j2, c2) = (s.from(1, 3), s.bits(3), s.from(1, 1));
+    let blocking = s.bits(1);
+    let last = s.from(1, 1);
+    crate::assume(last <= c1);
+    let limit = s.from(1, 7);
+    crate::assume(limit <= limit_max);
+    let a1 = Sporadic::new(Duration::from(t1), Duration::from(j1));
+    let a2 = Sporadic::new(Duration::from(t2), Duration::from(j2));
+    let others = [RBF::new(a2, Scalar::new(Service::from(c2)))];
+    let wcet = Scalar::new(Service::from(c1));
+    let lim = Duration::from(limit);
+    let (got, b, rem) = match kind {
+        Kind::Preemptive => {
+            let tua = RBF::new(a1, wcet);
+            (fp::fully_preemptive::dedicated_uniproc_rta(&tua, &others, lim), 0, 0)
+        }
+        Kind::NonPreemptive => {
+            let tua = fp::fully_nonpreemptive::TaskUnderAnalysis { wcet, arrivals: &a1, blocking_bound: Service::from(blocking) };
+            (fp::fully_nonpreemptive::dedicated_uniproc_rta(&tua, &others, lim), blocking, c1 - 1)
+        }
+        _ => {
+            let tua = fp::limited_preemptive::TaskUnderAnalysis { wcet, arrivals: &a1, last_np_segment: Service::from(last), blocking_bound: Service::from(blocking) };
+            (fp::limited_preemptive::dedicated_uniproc_rta(&tua, &others, lim), blocking, last - 1)
+        }
+    };
+    let want = spec::fp_generic(|d| sporadic_na(t1, j1, d) * c1, |d| sporadic_na(t2, j2, d) * c2, b, rem, limit);
+    assert!(to_spec(&got) == want);
+    assert!(err_payload_ok(&got, limit));
+    cover!(matches!(want, Some(r) if r >= 4) && j1 > t1, "Ok(R) with R >= 4 and jitter larger than the period");
+    cover!(want.is_none(), "divergence");
+}
+harness!(c06_fp_p_sporadic_q, 8, |s| { fp_sporadic_body(s, Kind::Preemptive, 6); });
+harness!(c06_fp_np_sporadic_q, 8, |s| { fp_sporadic_body(s, Kind::NonPreemptive, 6); });
+harness!(c06_fp_lp_sporadic_t, 8, |s| { fp_sporadic_body(s, Kind::Limited, 6); });
+
 pub fn register(t: &mut Table) {
     reg!(t;
         c06_fp_p_q, c06_fp_np_q, c06_fp_lp_q, c06_fp_fl_q,
         c06_edf_p_q, c06_edf_np_q, c06_edf_lp_q, c06_edf_fl_q, c06_fifo_q, c06_fifo_single_q, c06_fp_np_single_q,
+        c06_fp_p_sporadic_q, c06_fp_np_sporadic_q, c06_fp_lp_sporadic_t,
         c06_fp_p_t, c06_fp_np_t, c06_fp_lp_t, c06_fp_fl_t,
         c06_edf_p_t, c06_edf_np_t, c06_edf_lp_t, c06_edf_fl_t, c06_fifo_t, c06_edf_np_never_t, c06_edf_fl_two_others_t, c06_edf_np_two_others_t,
     );
